@@ -13,6 +13,9 @@ import OdeVerif.Model.MixedIntegrator
 import OdeVerif.Model.Terms
 import OdeVerif.Model.Shapes
 import OdeVerif.Model.Propagator
+import OdeVerif.Model.Validate
+import OdeVerif.Model.Config
+import OdeVerif.Model.Cli
 
 open Lean
 
@@ -375,6 +378,89 @@ def opAssemble (j : Json) : Except String Json := do
                       ("cols", Json.arr (rows.map (fun u => Json.arr (u.cols.map (fun (c : Fin n) => Json.num (JsonNumber.fromNat c.val))).toArray)).toArray),
                       ("kinds", Json.arr (kinds.map Json.str).toArray)])
 
+/-! ### C09 validate, C07 config, C16 cli -/
+
+def optStr (j : Json) (k : String) : Option (List Char) :=
+  match j.getObjValAs? String k with
+  | .ok s => some s.toList
+  | .error _ => none
+
+def parseEntry (j : Json) : Except String Validate.Entry := do
+  let ivs : Option (List (List Char × List Char)) ← match j.getObjVal? "initial_values" with
+    | .ok (Json.arr a) => do
+      let l ← a.toList.mapM (fun e => do
+        let p ← e.getArr?
+        match p.toList with
+        | [k, v] => do pure ((← k.getStr?).toList, (← v.getStr?).toList)
+        | _ => .error "bad iv pair")
+      pure (some l)
+    | _ => pure none
+  pure { expression := optStr j "expression", initialValue := optStr j "initial_value", initialValues := ivs }
+
+def kindName : Validate.Kind → String
+  | .noExpression => "no-expression" | .eqCount => "eq-count" | .lhsTokens => "lhs-tokens" | .noSymbol => "no-symbol"
+  | .noInitialValues => "no-initial-values" | .bothSpellings => "both-spellings" | .singleNotFirstOrder => "single-not-first-order"
+  | .wrongNumber => "wrong-number" | .ivNoSymbol => "iv-no-symbol" | .ivOtherVariable => "iv-other-variable"
+  | .ivOrderTooHigh => "iv-order-too-high" | .ivDuplicate => "iv-duplicate" | .ivMissing => "iv-missing" | .markerInName => "marker-in-name"
+
+def outcomeJson : Validate.Outcome → Json
+  | .ok nm o => Json.mkObj [("kind", Json.str "ok"), ("name", Json.str (String.ofList nm)), ("order", Json.num (JsonNumber.fromNat o))]
+  | .malformed k => Json.mkObj [("kind", Json.str "malformed"), ("what", Json.str (kindName k))]
+  | .reserved nm => Json.mkObj [("kind", Json.str "reserved"), ("name", Json.str (String.ofList nm))]
+
+def opValidate (j : Json) : Except String Json := do
+  let marker := (← getStr j "marker").toList
+  let reserved := Generated.reservedNames.map String.toList
+  let entries ← (← getArr j "entries").toList.mapM parseEntry
+  pure (Json.mkObj [("all", outcomeJson (Validate.validateAll marker reserved entries)),
+                    ("each", Json.arr (entries.map (fun e => outcomeJson (Validate.validate marker reserved e))).toArray)])
+
+def storeJson (s : Config.Store) : Json := Json.arr (s.map (fun (k, v) => Json.arr #[Json.str k, Json.str v])).toArray
+
+def opConfigRun (j : Json) : Except String Json := do
+  let pol : Config.Policy := { resetsFirst := (← getBool j "resets_first") }
+  let calls ← (← getArr j "calls").toList.mapM (fun c => do
+    let opts : Option (List (String × String)) ← match c.getObjVal? "options" with
+      | .ok (Json.arr a) => do
+        let l ← a.toList.mapM (fun e => do
+          let p ← e.getArr?
+          match p.toList with
+          | [k, v] => do pure ((← k.getStr?), (← v.getStr?))
+          | _ => .error "bad option pair")
+        pure (some l)
+      | _ => pure none
+    let simp : Option String := (c.getObjValAs? String "simplify").toOption
+    pure ({ input := (), options := opts, hasDynamics := (← getBool c "has_dynamics"), simplify := simp, flags := () } : Config.Call Unit Unit))
+  -- thread the store explicitly to report it after every call
+  let rec go (s : Config.Store) : List (Config.Call Unit Unit) → List Json
+    | [] => []
+    | c :: cs =>
+      let r := Config.call pol (fun st _ _ => st) s c
+      let o := match r.2 with
+        | .empty => Json.mkObj [("outcome", Json.str "empty"), ("store", storeJson r.1)]
+        | .badOption => Json.mkObj [("outcome", Json.str "bad-option"), ("store", storeJson r.1)]
+        | .result eff => Json.mkObj [("outcome", Json.str "result"), ("store", storeJson r.1), ("effective", storeJson eff)]
+      o :: go r.1 cs
+  pure (Json.mkObj [("calls", Json.arr (go Config.defaults calls).toArray)])
+
+def opCli (j : Json) : Except String Json := do
+  let pres : Cli.PreserveArg ← match j.getObjVal? "preserve" with
+    | .ok (Json.arr a) => do pure (.names (← a.toList.mapM (fun x => x.getStr?)))
+    | _ => pure .absent
+  let a : Cli.Args := { infile := (← getStr j "infile").toList, disableStiffness := (← getBool j "disable_stiffness"),
+                        disableAnalytic := (← getBool j "disable_analytic"), preserve := pres, logLevel := (← getStr j "log_level") }
+  let ex ← getBool j "exists"; let lo ← getBool j "load_ok"; let ao ← getBool j "api_ok"
+  let r := Cli.main (D := Unit) (R := Cli.ApiFlags) (fun _ => ex) (fun _ => if lo then some () else none)
+             (fun _ f => if ao then some f else none) a
+  match r with
+  | .exitNonzero => pure (Json.mkObj [("outcome", Json.str "exit-nonzero")])
+  | .wrote nm f =>
+    let p : Json := match f.preserve with
+      | .no => Json.bool false | .all => Json.bool true | .list l => Json.arr (l.map Json.str).toArray
+    pure (Json.mkObj [("outcome", Json.str "wrote"), ("name", Json.str (String.ofList nm)),
+      ("flags", Json.mkObj [("disable_stiffness_check", Json.bool f.disableStiffness), ("disable_analytic_solver", Json.bool f.disableAnalytic),
+                            ("preserve_expressions", p), ("log_level", Json.str f.logLevel)])])
+
 def dispatch (op : String) (j : Json) : Json :=
   match op with
   | "ping" => Json.mkObj [("pong", j)]
@@ -394,6 +480,9 @@ def dispatch (op : String) (j : Json) : Json :=
   | "subsys" => run (opSubsys j)
   | "components" => run (opComponents j)
   | "assemble" => run (opAssemble j)
+  | "validate" => run (opValidate j)
+  | "config-run" => run (opConfigRun j)
+  | "cli" => run (opCli j)
   | _ => jerr ("unknown-op: " ++ op)
 
 end OdeVerif.Driver
